@@ -72,7 +72,7 @@ class G2P:
 def random_config(rng, kind, **force):
     cfg = dict(kind=kind, seed=rng.randrange(1 << 30), pop=rng.randint(8, 11), iters=rng.choice([1, 2, 3, 5, 7]),
                elitism=rng.random() < 0.6, minimization=rng.random() < 0.5, g2p=rng.random() < 0.35,
-               init=rng.random() < 0.35, objective=rng.choice(["onemax", "plateau", "const", "neg", "weighted", "first", "nearties"]),
+               init=rng.random() < 0.35, objective=rng.choice(["onemax", "plateau", "const", "neg", "weighted", "first", "nearties", "nearties45"]),
                scale=rng.choice([1.0, 1.0, 2.0 ** 40, 0.125]), opt_mode=rng.choice(["none", "none", "first", "mid", "never"]),
                err=rng.choice([0.0, 0.125, 1.0]), nin=rng.choice([None, None, 0, 1, 2, 50]), str_len=rng.randint(4, 8),
                dim=rng.randint(1, 3), keep_history=True, offset=rng.choice([0.0, 0.0, 0.0, 2.0 ** 50, -(2.0 ** 50)]),
@@ -81,7 +81,7 @@ def random_config(rng, kind, **force):
     if cfg["offset"] != 0.0:
         cfg["err"] = rng.choice([0.0, 1.0])      # keep sign*optimal_value - err exactly representable next to 2^50
     if kind in TREES:
-        cfg["objective"] = rng.choice(["onemax", "const", "plateau", "nearties"])   # Objective maps trees to len(tree)
+        cfg["objective"] = rng.choice(["onemax", "const", "plateau", "nearties", "nearties45"])   # Objective maps trees to len(tree)
     if kind in ("DifferentialEvolution", "jDE", "SHADE") and rng.random() < 0.25:
         cfg["objective"], cfg["scale"] = "view", 1.0      # the objective returns a view of the population it was handed
     # operator names and their numeric parameters (incl. the argument-parameterised *_k / custom_rate entries)
@@ -123,7 +123,8 @@ def build(cfg, obj, g2p, callback, rng_init):
         if cfg.get("_init_object") is not None:
             init = cfg["_init_object"]
         elif cfg["init"]:
-            init = np.array([[rng_init.randint(-8, 8) / 4 for _ in range(cfg["dim"])] for _ in range(cfg["pop"])], dtype=np.float64)
+            wide = 12 if rng_init.random() < 0.4 else 8        # sometimes a warm start from a wider box than [-2, 2]
+            init = np.array([[rng_init.randint(-wide, wide) / 4 for _ in range(cfg["dim"])] for _ in range(cfg["pop"])], dtype=np.float64)
         kw = dict(left_border=-2.0, right_border=2.0, num_variables=cfg["dim"], init_population=init)
         if kind != "SHADE":
             kw["mutation"] = cfg.get("strategy", "rand_1")
@@ -183,7 +184,7 @@ def run_trace(cfg):
     import random as _r
     rng_init = _r.Random(cfg["seed"] ^ 0x5bd1e995)
     kind = cfg["kind"]
-    off = cfg.get("offset", 0.0) if abs(cfg["scale"]) <= 2.0 and cfg["objective"] not in ("view", "nearties") else 0.0   # keep values exact
+    off = cfg.get("offset", 0.0) if abs(cfg["scale"]) <= 2.0 and cfg["objective"] not in ("view", "nearties", "nearties45") else 0.0   # keep values exact
     obj = L.Objective(cfg["objective"], scale=cfg["scale"], offset=off, reuse_buffer=bool(cfg.get("buffer")),
                       int_offset=cfg.get("intobj"))
     g2p = G2P(kind) if cfg["g2p"] else None
